@@ -3,14 +3,20 @@
 package main
 
 import (
+	"errors"
 	"fmt"
+	"io"
+	"io/ioutil"
 	"os"
 	"sort"
 	"strings"
+	"sync"
 
 	"verif/harness/e2e"
 	"verif/harness/hv"
 
+	"github.com/bfenetworks/bfe/bfe_fcgi"
+	"github.com/bfenetworks/bfe/bfe_http"
 	"github.com/bfenetworks/bfe/bfe_module"
 )
 
@@ -19,6 +25,77 @@ type env struct {
 	plan *e2e.Plan
 	live map[int]*e2e.Backend
 	idx  map[string]int
+	dead map[string]bool // host:port of the refusing addresses
+
+	mu    sync.Mutex
+	steps []int // outcome script of the current case, consumed by attempts that reach a live backend
+	ok200 []byte
+	r500  []byte
+	holds []e2e.Step
+}
+
+// injector is the fault-injecting transport in front of the cluster's real transport (installed through the hook
+// bfe_server.VerifC08WrapTransport).  Attempts to a refusing address pass through (real ConnectError).  For the others the
+// next step of the case decides: codes 0,1,2,4,5 are played by the fake backend over the real transport; codes >= 11 let
+// the real round trip succeed (the backend receives the request and replies 200) and then return the chosen error type,
+// so that every case of clusterInvoke's error switch is driven separately and deterministically.
+type injector struct {
+	real bfe_http.RoundTripper
+	e    *env
+}
+
+func (j *injector) RoundTrip(req *bfe_http.Request) (*bfe_http.Response, error) {
+	e := j.e
+	if e.dead[req.URL.Host] {
+		return j.real.RoundTrip(req)
+	}
+	e.mu.Lock()
+	code := 0
+	if len(e.steps) > 0 {
+		code, e.steps = e.steps[0], e.steps[1:]
+	}
+	switch code {
+	case 0:
+		e.plan.PushFor("r", e2e.Reply(e.ok200))
+	case 1:
+		e.plan.PushFor("r", e2e.ReadHeadClose())
+	case 2:
+		e.plan.PushFor("r", e2e.Partial([]byte("HTTP/1.1 20")))
+	case 4:
+		e.plan.PushFor("r", e2e.Reply(e.r500))
+	case 5:
+		h := e2e.Hold(e.ok200)
+		e.holds = append(e.holds, h)
+		e.plan.PushFor("r", h)
+	default:
+		e.plan.PushFor("r", e2e.Reply(e.ok200))
+	}
+	e.mu.Unlock()
+	res, err := j.real.RoundTrip(req)
+	if code < 11 {
+		return res, err
+	}
+	if err != nil {
+		return res, err // unexpected: shows up as a disagreement
+	}
+	io.Copy(ioutil.Discard, res.Body)
+	res.Body.Close()
+	inj := errors.New("injected")
+	switch code {
+	case 11:
+		return nil, bfe_http.WriteRequestError{Err: inj}
+	case 12:
+		return nil, bfe_http.ReadRespHeaderError{Err: inj}
+	case 13:
+		return nil, bfe_http.RespHeaderTimeoutError{}
+	case 14:
+		return nil, bfe_http.TransportBrokenError{}
+	case 16:
+		return nil, bfe_fcgi.WriteRequestError{Err: inj}
+	case 17:
+		return nil, bfe_fcgi.ReadRespHeaderError{Err: inj}
+	}
+	return nil, inj
 }
 
 var envs = map[[3]int]*env{}
@@ -34,9 +111,21 @@ func getEnv(rm, cr, level int) *env {
 	a0, c0, e0 := e2e.NewBackend(name(0)), e2e.NewBackend(name(2)), e2e.NewBackend(name(4))
 	a0.Plan, c0.Plan, e0.Plan = plan, plan, plan
 	a1, c1 := e2e.DeadBackend(name(1), 0), e2e.DeadBackend(name(3), 1)
+	y0, y1 := e2e.NewBackend(name(5)), e2e.DeadBackend(name(6), 2)
+	y0.Plan = plan
 	srv := e2e.Start(e2e.Options{
-		Products: []e2e.Product{{Name: "p", Hosts: []string{"example.org"}, Cluster: "c"}},
-		Clusters: []e2e.Cluster{{Name: "c", RetryMax: rm, CrossRetry: cr, RetryLevel: level, TimeoutResponseHeader: 300,
+		Products: []e2e.Product{{Name: "p", Hosts: []string{"example.org"}, Cluster: "c"},
+			{Name: "py", Hosts: []string{"y.example.org"}, Cluster: "cy"},
+			{Name: "px", Hosts: []string{"x.example.org"}, Cluster: "cx"}},
+		Clusters: []e2e.Cluster{
+			// topo 1: the primary sub-cluster has no backend, the second one (weight 0) has a live and a refusing backend
+			{Name: "cy", RetryMax: rm, CrossRetry: cr, RetryLevel: level, TimeoutResponseHeader: 300,
+				SubClusters: []e2e.SubCluster{{Name: "s1", Weight: 100}, {Name: "s2", Weight: 0, Backends: []*e2e.Backend{y0, y1}},
+					{Name: "GSLB_BLACKHOLE", Weight: 0}}},
+			// topo 2: no sub-cluster has a backend
+			{Name: "cx", RetryMax: rm, CrossRetry: cr, RetryLevel: level,
+				SubClusters: []e2e.SubCluster{{Name: "s1", Weight: 100}, {Name: "s2", Weight: 0}}},
+			{Name: "c", RetryMax: rm, CrossRetry: cr, RetryLevel: level, TimeoutResponseHeader: 300,
 			SubClusters: []e2e.SubCluster{
 				{Name: "s1", Weight: 100, Backends: []*e2e.Backend{a0, a1}},
 				{Name: "s2", Weight: 0, Backends: []*e2e.Backend{c0, c1}},
@@ -44,8 +133,14 @@ func getEnv(rm, cr, level int) *env {
 				{Name: "GSLB_BLACKHOLE", Weight: 0}}}},
 		Handlers: 1,
 	})
-	e := &env{srv, plan, map[int]*e2e.Backend{0: a0, 2: c0, 4: e0}, map[string]int{}}
-	for i := 0; i < 5; i++ {
+	e := &env{srv: srv, plan: plan, live: map[int]*e2e.Backend{0: a0, 2: c0, 4: e0, 5: y0}, idx: map[string]int{},
+		dead: map[string]bool{a1.Addr(): true, c1.Addr(): true, y1.Addr(): true}}
+	for _, cn := range []string{"c", "cy"} {
+		if !srv.Bfe.VerifC08WrapTransport(cn, func(rt bfe_http.RoundTripper) bfe_http.RoundTripper { return &injector{rt, e} }) {
+			panic("c08: no transport for cluster " + cn)
+		}
+	}
+	for i := 0; i < 7; i++ {
 		e.idx[name(i)] = i
 	}
 	envs[k] = e
@@ -56,13 +151,21 @@ var methods = []string{"GET", "POST", "HEAD", "PUT"}
 
 func impl(in hv.Val) hv.Val {
 	l := hv.AsList(in)
-	if len(l) != 6 {
+	if len(l) != 6 && len(l) != 7 {
 		return hv.Err(0)
 	}
+	topo := 0
+	if len(l) == 7 {
+		topo = int(hv.AsInt(l[6]))
+		if topo < 0 || topo > 2 {
+			return hv.Err(0)
+		}
+	}
+	host := []string{"example.org", "y.example.org", "x.example.org"}[topo]
 	rm, cr, level := int(hv.AsInt(l[0])), int(hv.AsInt(l[1])), int(hv.AsInt(l[2]))
 	method, body := int(hv.AsInt(l[3])), int(hv.AsInt(l[4]))
 	steps := hv.AsList(l[5])
-	if rm < 0 || rm > 5 || cr < 0 || cr > 3 || level < 0 || level > 1 || method < 0 || method > 3 || body < 0 || body > 3 || len(steps) > 12 {
+	if rm < 0 || rm > 30 || cr < 0 || cr > 3 || level < 0 || level > 1 || method < 0 || method > 3 || body < 0 || body > 3 || len(steps) > 40 {
 		return hv.Err(0)
 	}
 	e := getEnv(rm, cr, level)
@@ -81,32 +184,29 @@ func impl(in hv.Val) hv.Val {
 	for _, b := range e.live {
 		b.Default = e2e.Reply(ok200)
 	}
-	var holds []e2e.Step
+	e.mu.Lock()
+	e.steps, e.ok200, e.r500, e.holds = nil, ok200, r500, nil
 	for _, sv := range steps {
-		switch hv.AsInt(sv) {
-		case 0:
-			e.plan.PushFor("r", e2e.Reply(ok200))
-		case 1:
-			e.plan.PushFor("r", e2e.ReadHeadClose())
-		case 2:
-			e.plan.PushFor("r", e2e.Partial([]byte("HTTP/1.1 20")))
-		case 4:
-			e.plan.PushFor("r", e2e.Reply(r500))
-		case 5:
-			h := e2e.Hold(ok200)
-			holds = append(holds, h)
-			e.plan.PushFor("r", h)
+		c := int(hv.AsInt(sv))
+		switch c {
+		case 0, 1, 2, 4, 5, 11, 12, 13, 14, 16, 17, 18:
+			e.steps = append(e.steps, c)
 		default:
+			e.mu.Unlock()
 			return hv.Err(0)
 		}
 	}
+	e.mu.Unlock()
 	defer func() {
-		for _, h := range holds {
+		e.mu.Lock()
+		for _, h := range e.holds {
 			e2e.Release(h)
 		}
+		e.holds = nil
+		e.mu.Unlock()
 	}()
 	var sb strings.Builder
-	fmt.Fprintf(&sb, "%s /c08 HTTP/1.1\r\nHost: example.org\r\nConnection: close\r\nX-Verif-Id: r\r\n", methods[method])
+	fmt.Fprintf(&sb, "%s /c08 HTTP/1.1\r\nHost: %s\r\nConnection: close\r\nX-Verif-Id: r\r\n", methods[method], host)
 	switch body {
 	case 0:
 		sb.WriteString("\r\n")
@@ -153,7 +253,33 @@ func impl(in hv.Val) hv.Val {
 	return hv.L{att, saw, hv.I(status)}
 }
 
+var kinds = []int{11, 12, 13, 14, 16, 17, 18, 1, 2}
+
+// structured stream: every error kind x method x body shape x retry level once (RetryMax 2, CrossRetry 1)
+func structured() []hv.Val {
+	var out []hv.Val
+	for _, k := range kinds {
+		for m := 0; m < 4; m++ {
+			for b := 0; b < 4; b++ {
+				if m == 2 && b >= 2 {
+					continue
+				}
+				for lv := 0; lv < 2; lv++ {
+					out = append(out, hv.L{hv.I(2), hv.I(1), hv.I(lv), hv.I(m), hv.I(b), hv.L{hv.I(k), hv.I(0)}})
+				}
+			}
+		}
+	}
+	return out
+}
+
+var structuredCases = structured()
+
 func gen(r *hv.Rng, i int, tier string) (string, hv.Val) {
+	if i > 0 && i <= len(structuredCases) {
+		in := structuredCases[i-1]
+		return fmt.Sprintf("kind%d", hv.AsInt(hv.AsList(hv.AsList(in)[5])[0])), in
+	}
 	rm := []int{0, 1, 2, 3, 5}[r.Intn(5)]
 	cr := []int{0, 0, 1, 2, 3}[r.Intn(5)]
 	level := r.Intn(2)
@@ -172,6 +298,8 @@ func gen(r *hv.Rng, i int, tier string) (string, hv.Val) {
 		for k := 0; k < nf; k++ {
 			if r.Chance(1, 30) {
 				steps = append(steps, hv.I(5))
+			} else if r.Chance(1, 2) {
+				steps = append(steps, hv.I(kinds[r.Intn(len(kinds))]))
 			} else {
 				steps = append(steps, hv.I(1+r.Intn(2)))
 			}
@@ -191,6 +319,22 @@ func gen(r *hv.Rng, i int, tier string) (string, hv.Val) {
 	}
 	if i == 0 {
 		return "triv-ok", hv.L{hv.I(0), hv.I(0), hv.I(0), hv.I(0), hv.I(0), hv.L{hv.I(0)}}
+	}
+	if r.Chance(1, 50) { // the hard cap of 20 loop iterations: RetryMax 25, a replayable GET, 19..30 failing attempts
+		n := 18 + r.Intn(13)
+		st := hv.L{}
+		for k := 0; k < n; k++ {
+			st = append(st, hv.I([]int{12, 14, 11, 13}[r.Intn(4)]))
+		}
+		st = append(st, hv.I(0))
+		return "cap20", hv.L{hv.I(25), hv.I(r.Intn(3)), hv.I(1), hv.I(0), hv.I(r.Intn(2)), st}
+	}
+	if r.Chance(1, 8) {
+		topo := 1 + r.Intn(2)
+		if r.Chance(3, 4) {
+			topo = 1
+		}
+		return fmt.Sprintf("topo%d-%s", topo, class), hv.L{hv.I(rm), hv.I(cr), hv.I(level), hv.I(method), hv.I(body), steps, hv.I(topo)}
 	}
 	return class, hv.L{hv.I(rm), hv.I(cr), hv.I(level), hv.I(method), hv.I(body), steps}
 }
